@@ -6,7 +6,7 @@ import Verif.Proofs.SvgVal
 -/
 namespace Verif.Proofs.SvgInduct
 open Verif.Spec.SvgPath Verif.Spec.SvgHazard Verif.Model.SvgPath Verif.Proofs.SvgLex Verif.Proofs.SvgGeom
-open Verif.Proofs.SvgModel Verif.Proofs.SvgSound Verif.Proofs.SvgVal Verif.Proofs.SvgParse
+open Verif.Model.SvgGuard Verif.Proofs.SvgModel Verif.Proofs.SvgSound Verif.Proofs.SvgVal Verif.Proofs.SvgParse
 
 /-- number printers that keep the exact value and the `minify.Number` shape (C08.1 + C08.5) -/
 structure NumExact (P : NumPr) : Prop where
@@ -415,11 +415,6 @@ theorem hazardAt_none_of_nil (S : St) (p : PrevClass) (c : Cmd) (r : List Cmd) (
   | none => rfl
   | some x => rw [hh] at h; simp at h
 
-/-- the input commands of the groups of one instruction -/
-def cmdsOf (k0 : Kind) (rel : Bool) : Bool → List (List Coord) → List Cmd
-  | _, [] => []
-  | first, g :: r => ⟨groupKind k0 first, rel, vals g⟩ :: cmdsOf k0 rel false r
-
 /-- what holds after a run of groups -/
 structure RunOK (P : NumPr) (st : MSt) (Sin Sout : St) (prev : PrevClass) (cmds : List Cmd)
     (res : MSt × List OutGroup) : Prop where
@@ -483,18 +478,6 @@ theorem groupLoop_sound (P : NumPr) (hP : NumExact P) (k0 : Kind) (rel single : 
       (by simpa [runSpec, classAfter] using hz2)
     have := RunOK.append step1 h2
     simpa [cmdsOf, groupLoop] using this
-
-/-- the input commands one instruction stands for (an instruction with a wrong number of coordinates stands for nothing) -/
-def instrCmds (ins : Instr) : List Cmd :=
-  if ins.cs.length == 0 then (if ins.k == .Z then [⟨.Z, ins.rel, []⟩] else [])
-  else
-    match instrArity ins.k ins.cs.length with
-    | none => []
-    | some di => cmdsOf ins.k ins.rel true (chunks di ins.cs.length ins.cs)
-
-def instrsCmds : List Instr → List Cmd
-  | [] => []
-  | i :: r => instrCmds i ++ instrsCmds r
 
 /-- the coordinates of an instruction carry the exact values of their lexemes (what the scanner produces) -/
 def InstrOk (ins : Instr) : Prop :=
@@ -562,14 +545,6 @@ theorem groups_geometry (P : NumPr) (hP : NumExact P) (is : List Instr) (final :
 
 /-! ## decidable form of the scanner-side guards -/
 
-def coordOkB (k : Kind) (i : Nat) (c : Coord) : Bool :=
-  if isFlagIdx k i then ((c.lx.headD ' ' == '1') && c.v == 1) || (!(c.lx.headD ' ' == '1') && c.v == 0)
-  else c.v == numVal c.lx
-
-def coordsOkB (k : Kind) : Nat → List Coord → Bool
-  | _, [] => true
-  | i, c :: r => coordOkB k i c && coordsOkB k (i + 1) r
-
 theorem coordsOk_of_B (k : Kind) : ∀ (cs : List Coord) (i : Nat), coordsOkB k i cs = true → CoordsOk k i cs := by
   intro cs
   induction cs with
@@ -591,16 +566,93 @@ theorem coordsOk_of_B (k : Kind) : ∀ (cs : List Coord) (i : Nat), coordsOkB k 
       simp only [hf, Bool.false_eq_true, if_false, beq_iff_eq] at h1 ⊢
       exact h1
 
-def instrOkB (ins : Instr) : Bool :=
-  match instrArity ins.k ins.cs.length with
-  | none => true
-  | some di => (chunks di ins.cs.length ins.cs).all (coordsOkB ins.k 0)
-
 theorem instrOk_of_B (ins : Instr) (h : instrOkB ins = true) : InstrOk ins := by
   intro di hdi g hg
   unfold instrOkB at h
   rw [hdi] at h
   simp only [List.all_eq_true] at h
   exact coordsOk_of_B _ _ _ (h g hg)
+
+/-! ## repeated closepath letters -/
+
+theorem stepCmd_segs (S : St) (c : Cmd) : (stepCmd S c).2 = [] ∨ ∃ sg, (stepCmd S c).2 = [sg] := by
+  unfold stepCmd
+  split <;> simp
+
+theorem dedupClose_single (p : Bool) (sg : Seg) (rest : List Seg) :
+    dedupClose p ([sg] ++ rest) = (if isClose sg && p then [] else [sg]) ++ dedupClose (isClose sg) rest := by
+  simp only [List.cons_append, List.nil_append, dedupClose]
+  cases h : isClose sg <;> cases p <;> simp
+
+theorem mergeZ_norm : ∀ (cmds : List Cmd) (prev : Option Bool) (S : St) (p : Bool),
+    (prev.isSome = true → S.cur = S.start ∧ S.lc = none ∧ S.lq = none ∧ p = true) →
+    dedupClose p ((segsFrom S (mergeZGo prev cmds)).filterMap simp1) =
+      dedupClose p ((segsFrom S cmds).filterMap simp1) := by
+  intro cmds
+  induction cmds with
+  | nil => intro prev S p _; rfl
+  | cons c r ih =>
+    intro prev S p hinv
+    by_cases hm : (isZ c && prev == some c.rel) = true
+    · -- merged away
+      simp only [mergeZGo, hm, if_true]
+      simp only [Bool.and_eq_true, beq_iff_eq] at hm
+      obtain ⟨hz, hp⟩ := hm
+      obtain ⟨h1, h2, h3, h4⟩ := hinv (by rw [hp]; rfl)
+      have hk : c.k = .Z ∧ c.a = [] := by
+        unfold isZ at hz; simp only [Bool.and_eq_true, beq_iff_eq, List.isEmpty_iff] at hz; exact hz
+      have hstep : stepCmd S c = (S, [.close S.cur S.start]) := by
+        obtain ⟨k, rel, a⟩ := c
+        simp only at hk
+        obtain ⟨rfl, rfl⟩ := hk
+        simp only [stepCmd]
+        congr 1
+        obtain ⟨cur, start, lc, lq⟩ := S
+        simp only at h1 h2 h3
+        subst h1; subst h2; subst h3; rfl
+      rw [ih prev S p hinv]
+      simp only [segsFrom, hstep, List.cons_append, List.nil_append, List.filterMap_cons, simp1, dedupClose, isClose, h4,
+        if_true]
+    · simp only [mergeZGo, hm, Bool.false_eq_true, if_false, segsFrom, List.filterMap_append]
+      have hpre : (stepCmd S c).2.filterMap simp1 = [] ∨ ∃ sg, (stepCmd S c).2.filterMap simp1 = [sg] := by
+        rcases stepCmd_segs S c with h | ⟨sg, h⟩
+        · left; rw [h]; rfl
+        · rw [h, filterMap_single]
+          cases simp1 sg with
+          | none => left; rfl
+          | some x => right; exact ⟨x, rfl⟩
+      rcases hpre with hf | ⟨sg, hf⟩
+      · rw [hf]
+        simp only [List.nil_append]
+        apply ih
+        intro hsome
+        -- a closepath always leaves a segment
+        exfalso
+        cases hz : isZ c with
+        | false => simp [hz] at hsome
+        | true =>
+          unfold isZ at hz; simp only [Bool.and_eq_true, beq_iff_eq, List.isEmpty_iff] at hz
+          obtain ⟨k, rel, a⟩ := c
+          simp only at hz
+          obtain ⟨rfl, rfl⟩ := hz
+          simp [stepCmd, simp1] at hf
+      · rw [hf, dedupClose_single, dedupClose_single]
+        congr 1
+        apply ih
+        intro hsome
+        cases hz : isZ c with
+        | false => simp [hz] at hsome
+        | true =>
+          unfold isZ at hz; simp only [Bool.and_eq_true, beq_iff_eq, List.isEmpty_iff] at hz
+          obtain ⟨k, rel, a⟩ := c
+          simp only at hz
+          obtain ⟨rfl, rfl⟩ := hz
+          simp only [stepCmd, filterMap_single, simp1, Option.toList, List.cons.injEq] at hf
+          refine ⟨by simp [stepCmd], by simp [stepCmd], by simp [stepCmd], ?_⟩
+          rw [← hf.1]; rfl
+
+/-- `≃` does not see repeated closepath letters -/
+theorem mergeZ_equiv (cmds : List Cmd) : norm (absSegments (mergeZ cmds)) = norm (absSegments cmds) :=
+  mergeZ_norm cmds none {} false (by intro h; simp at h)
 
 end Verif.Proofs.SvgInduct
